@@ -6,7 +6,10 @@ from workloads.membership import Run
 
 PROPERTY = 'C16'
 LEVEL = 'exploration'
-RULE = ('generated clusters (1-5 instances, 1-3 nodes, options, rules, Supervisor configurations) executed under '
+RULE = ('two workload families - (a) membership: generated fault scripts; (b) applications: automatic distribution, '
+        'user start / stop / restart requests, kills, duplicates, instance loss and restart, targets crashing at the '
+        'emission of a start request, immortal processes, 0-25% of PROCESS publications silently dropped - on '
+        'generated clusters (1-5 instances, 1-3 nodes, options, rules, Supervisor configurations) executed under '
         'generated fault scripts (crash, restart, partition, link cut, late joiner, process kill) and randomised '
         'message delays; a case is non-trivial when at least one disturbance was applied; distinct = distinct '
         '(topology size, nodes, synchro options, failure strategy, auto_fence, core, schedule profile, disturbance '
@@ -22,14 +25,35 @@ KNOBS = {'n_min': 1, 'n_max': 5, 'publisher': True, 'trigger_p': 0.3, 'late_p': 
          'apps': {'per_instance_diff': 0.15, 'allow_wait_exit': False}}
 
 
+APPS_KNOBS = {'n_min': 1, 'n_max': 4, 'publisher': True,
+              'apps': {'n_apps': (1, 3), 'n_progs': (1, 4), 'seq_max': 3, 'allow_wait_exit': True,
+                       'startsecs': (0, 6), 'per_instance_diff': 0.15, 'managed_p': 0.85},
+              'behaviours': ['normal'] * 5 + ['slow_stop', 'stubborn', 'immortal', 'crash_early', 'backoff_then_run',
+                                              'exit_expected', 'exit_unexpected', 'fork_error', 'no_file'],
+              'actions': ['start_application', 'stop_application', 'restart_application', 'start_process',
+                          'stop_process', 'restart_process', 'restart_sequence', 'kill_process', 'crash', 'restart',
+                          'dup', 'burst'],
+              'disable_p': 0.15, 'crash_on_request_p': 0.05, 'drop_p': [0.0, 0.0, 0.05, 0.25],
+              'n_actions': [1, 2, 3, 4, 6, 8], 'early_p': 0.3}
+
+
 def plan(tier, seed):
-    return [{'seed': seed * 1000003 + i} for i in range(COUNT[tier])]
+    # two workload families: membership faults and application activity under a lossy channel
+    return [{'seed': seed * 1000003 + i, 'family': 'membership' if i % 2 == 0 else 'apps'}
+            for i in range(COUNT[tier])]
 
 
 def run_case(case):
     mon = InternalFailureMonitor()
-    run = Run(case, KNOBS, [mon])
-    violations = run.execute()
-    nontrivial = any(not d.get('noop') for d in run.disturbances)
-    return {'violations': violations, 'counters': run.counters, 'signature': run.shape() if nontrivial else None,
+    if case.get('family', 'membership') == 'membership':
+        run = Run(case, KNOBS, [mon])
+        violations = run.execute()
+        nontrivial = any(not d.get('noop') for d in run.disturbances)
+    else:
+        from workloads.apps import Run as AppsRun
+        run = AppsRun(case, APPS_KNOBS, [mon])
+        violations = run.execute()
+        nontrivial = bool(run.actions)
+    return {'violations': violations, 'counters': run.counters,
+            'signature': (case.get('family', 'm') + '|' + run.shape()) if nontrivial else None,
             'sample': run.describe()}
